@@ -3,15 +3,18 @@ import CashewsVerif.Model.SingleFlight
 /- Driver for C07: replays a recorded schedule (bursts of call / body-step / cancel actions) on the
 single-flight model and prints the observable state after each burst.
 
-  case caching=<0|1> callers=<c,c,..> keys=<k,k,..>          -> ok
-  do <item> ...                                              -> en=.. callers=.. keys=.. joined=..
+  case caching=<0|1> ttl=<ticks> callers=<c,c,..> keys=<k,k,..>   -> ok
+  do <item> ...                                              -> en=.. callers=.. keys=.. joined=.. now=..
        item:  c<caller>:<key>:<n>:<o>[:a<arg>]                           call (script used if it starts an execution)
-                 <o> = r<v> returns v | e<cls> raises class cls | k<how> the body ends cancelled (how: ignored)
+                 <o> = r<v> returns v | e<cls>.<p> raises class cls with payload p | k<how> the body ends cancelled
+                       (how: ignored)
                  <key> is the rendered cache key; a<arg> = the argument the key template leaves out (`Act.callWith`)
               x<exec>                                                    the body of <exec> passes a suspension point
               k<caller>                                                  cancel
-  callers=  per declared caller  N | W | R<v> | E<cls> | K (CancelledError of an execution that ended cancelled)
+              t<d>                                                       d ticks of time pass
+  callers=  per declared caller  N | W | R<v> | E<cls>.<p> | K (CancelledError of an execution that ended cancelled)
                                  | C (the caller itself was cancelled)
+  now=      the model's clock (ticks)
   keys=     per declared key     <key>:<executions in flight>:<bodies running>:<bodies started>:<executions created>
 -/
 open CashewsVerif CashewsVerif.Proto CashewsVerif.SingleFlight
@@ -28,7 +31,10 @@ def parseNats? (s : String) : Option (List Nat) :=
 
 def parseOutcome? (s : String) : Option Outcome :=
   if s.startsWith "r" then (dropS s 1).toNat?.map Outcome.ret
-  else if s.startsWith "e" then (dropS s 1).toNat?.map Outcome.exc
+  else if s.startsWith "e" then
+    match (dropS s 1).splitOn "." with
+    | [c, p] => do pure (Outcome.exc (← c.toNat?) (← p.toNat?))
+    | _ => none
   else if s.startsWith "k" then (dropS s 1).toNat?.map fun _ => Outcome.cancelled
   else none
 
@@ -43,6 +49,7 @@ def parseItem? (w : String) : Option Act :=
     | _ => none
   else if w.startsWith "x" then (dropS w 1).toNat?.map Act.bodyStep
   else if w.startsWith "k" then (dropS w 1).toNat?.map Act.cancel
+  else if w.startsWith "t" then (dropS w 1).toNat?.map Act.tick
   else none
 
 def showCaller (s : SfSt) (c : Nat) : String :=
@@ -50,7 +57,7 @@ def showCaller (s : SfSt) (c : Nat) : String :=
   | none => "N"
   | some ⟨_, .waiting⟩ => "W"
   | some ⟨_, .got (.ret v)⟩ => s!"R{v}"
-  | some ⟨_, .got (.exc e)⟩ => s!"E{e}"
+  | some ⟨_, .got (.exc e p)⟩ => s!"E{e}.{p}"
   | some ⟨_, .got .cancelled⟩ => "K"
   | some ⟨_, .cancelled⟩ => "C"
 
@@ -81,10 +88,11 @@ def fieldOf (pfx : String) (ws : List String) : Option String :=
 def stepLine (st : St) (line : String) : St × String :=
   match words line with
   | "case" :: ws =>
-    match fieldOf "caching=" ws, (fieldOf "callers=" ws).bind parseNats?, (fieldOf "keys=" ws).bind parseNats? with
-    | some b, some cs, some ks =>
-      if b = "0" ∨ b = "1" then ({ s := init (b = "1"), callers := cs, keys := ks }, "ok") else (st, "bad-op")
-    | _, _, _ => (st, "bad-op")
+    match fieldOf "caching=" ws, (fieldOf "ttl=" ws).bind String.toNat?, (fieldOf "callers=" ws).bind parseNats?,
+        (fieldOf "keys=" ws).bind parseNats? with
+    | some b, some ttl, some cs, some ks =>
+      if b = "0" ∨ b = "1" then ({ s := init (b = "1") ttl, callers := cs, keys := ks }, "ok") else (st, "bad-op")
+    | _, _, _, _ => (st, "bad-op")
   | "do" :: ws =>
     match allSome (ws.map parseItem?) with
     | none => (st, "bad-op")
@@ -94,8 +102,8 @@ def stepLine (st : St) (line : String) : St × String :=
       let en := "".intercalate (ens.map fun b => if b then "1" else "0")
       let out := s!"en={en} callers=" ++ ",".intercalate (st.callers.map (showCaller s2))
         ++ " keys=" ++ ";".intercalate (st.keys.map (showKey s2))
-        ++ " joined=" ++ ",".intercalate (st.callers.map (showJoined s2))
+        ++ " joined=" ++ ",".intercalate (st.callers.map (showJoined s2)) ++ s!" now={s2.now}"
       ({ st with s := s2 }, out)
   | _ => (st, "bad-op")
 
-def main : IO Unit := mainLoop stepLine { s := init false, callers := [], keys := [] }
+def main : IO Unit := mainLoop stepLine { s := init false 0, callers := [], keys := [] }
